@@ -15,8 +15,8 @@ EXPLANATION = (
     "of its own label combination (parameters per cohort and label, also with all labels sharing the first cohort's parameters, a "
     "pattern under which label-grouping shortcuts misfire); (d) SHIFT-INVARIANT - identical when every time item is shifted by a "
     "symbolic constant; (e) the stock response to the inflow rate of one cohort is that cohort's survival column times its "
-    "interval length. Exact on the enumerated grid shapes; numerical superposition error is not decided. Integer-dtype drivers "
-    "(a run-time quantity) are outside this analysis.")
+    "interval length; a prescribed stock handed over as an integer-dtype array is included (NumPy's cast-on-assignment is modelled as "
+    "truncation, which is not linear). Exact on the enumerated grid shapes; numerical superposition error is not decided.")
 TECHNIQUE = "static analysis: dependence/linearity analysis of the exact symbolic results of an abstract interpretation on bounded grids"
 
 
@@ -29,6 +29,7 @@ def run(prog, rep):
     jobs = [("inflow", c) for c in SC.dsm_configs(rep.tier)]
     jobs += [("stockdriven", dict(c, both_generic=True)) for c in SC.dsm_configs(rep.tier) if c["n_pts"] == 1 and c["n_t"] <= 4]
     jobs += [("simple", c) for c in SC.simple_configs(rep.tier)]
+    jobs += [("stockdriven", c) for c in SC.int_driver_configs(rep.tier)]
     run_stock_property(prog, rep, "C16", jobs, {"linear": "C16.linear", "causal": "C16.causal", "label-separate": "C16.label-separate",
                                                 "shift-invariant": "C16.shift-invariant", "impulse": "C16.impulse-response"})
     rep.rules["C16.linear"]["floor"] = 100
